@@ -514,6 +514,28 @@ def f_cyc():
       blocks.append((f"b{i}", "comb", [("=", ref(f"x{i}"), ("bin", "+", ref(f"x{i - 1}"), c(4, 1)))]))
     order = blocks[:1] + list(reversed(blocks[1:]))
     yield f"cyc:false-ring:{n}", comp("CycR", ins + sg, blocks=order), "false"
+  # ping-pong chains: two blocks exchange SEVERAL signals in each direction (x0 -> x1 -> ... -> xn alternating between the blocks)
+  S6 = S("S6", *[(f"f{i}", B(2)) for i in range(6)])
+  for n in (3, 4, 6):
+    for carrier in ("wires", "fields", "slices"):
+      if carrier == "wires":
+        sg = [(f"x{i}", "wire", B(2), ()) for i in range(n)]
+        X = [ref(f"x{i}") for i in range(n)]
+        fill = []
+      elif carrier == "fields":
+        sg = [("st", "wire", S6, ())]
+        X = [ref("st", ("f", f"f{i}")) for i in range(n)]
+        fill = [("=", ref("st", ("f", f"f{i}")), c(2, 0)) for i in range(n, 6)]
+      else:
+        sg = [("w", "wire", B(12), ())]
+        X = [ref("w", ("s", 2 * i, 2 * i + 2)) for i in range(n)]
+        fill = [("=", ref("w", ("s", 2 * n, 12)), c(12 - 2 * n, 0))] if n < 6 else []
+      a = [("=", X[0], ref("in_", ("s", 0, 2)))] + [("=", X[i], ("bin", "+", X[i - 1], c(2, 1))) for i in range(2, n, 2)]
+      b = [("=", X[i], ("bin", "+", X[i - 1], c(2, 1))) for i in range(1, n, 2)]
+      last = ("=", ref("out"), X[n - 1])
+      (a if (n - 1) % 2 == 1 else b).append(last)
+      blocks = [("blkB", "comb", b), ("blkA", "comb", a)] + ([("blkFill", "comb", fill)] if fill else [])
+      yield f"cyc:pingpong:{carrier}:{n}", comp("CycPP", ins + sg, blocks=blocks), "false"
   # two independent false loops + an acyclic part
   sgs = [("P", "wire", B(2), ()), ("R", "wire", B(2), ()), ("P2", "wire", B(2), ()), ("R2", "wire", B(2), ()), ("o2", "wire", B(2), ())]
   yield "cyc:false-two-sccs", comp("Cyc2", ins + sgs, blocks=[
